@@ -212,23 +212,19 @@ func (m *multiStreamListener) Acquire() (StreamListener, error) {
 		}
 		m.ln = &TCPListener{ln}
 		m.acceptCh = make(chan acceptResponse)
-		go func() {
+		// The goroutine owns the listener and channel it was started with, so that
+		// it is unaffected if the shared listener is acquired again after all of
+		// its users have closed it.
+		go func(ln StreamListener, acceptCh chan acceptResponse) {
 			for {
-				m.mu.Lock()
-				ln := m.ln
-				m.mu.Unlock()
-
-				if ln == nil {
-					return
-				}
 				conn, err := ln.AcceptStream()
 				if errors.Is(err, net.ErrClosed) {
-					close(m.acceptCh)
+					close(acceptCh)
 					return
 				}
-				m.acceptCh <- acceptResponse{conn, err}
+				acceptCh <- acceptResponse{conn, err}
 			}
-		}()
+		}(m.ln, m.acceptCh)
 	}
 
 	m.count++
@@ -238,20 +234,30 @@ func (m *multiStreamListener) Acquire() (StreamListener, error) {
 		closeCh:  make(chan struct{}),
 		onCloseFunc: func() error {
 			m.mu.Lock()
-			defer m.mu.Unlock()
 			m.count--
-			if m.count == 0 {
-				m.ln.Close()
-				m.ln = nil
-				if m.onCloseFunc != nil {
-					onCloseFunc := m.onCloseFunc
-					m.onCloseFunc = nil
-					return onCloseFunc()
-				}
+			if m.count > 0 {
+				m.mu.Unlock()
+				return nil
+			}
+			m.ln.Close()
+			m.ln = nil
+			// Release the lock before calling back: the callback may need a lock
+			// that another goroutine holds while it waits to acquire this listener.
+			onCloseFunc := m.onCloseFunc
+			m.mu.Unlock()
+			if onCloseFunc != nil {
+				return onCloseFunc()
 			}
 			return nil
 		},
 	}, nil
+}
+
+// idle reports whether the shared listener currently has no users.
+func (m *multiStreamListener) idle() bool {
+	m.mu.Lock()
+	defer m.mu.Unlock()
+	return m.ln == nil
 }
 
 type multiPacketListener struct {
@@ -284,47 +290,62 @@ func (m *multiPacketListener) Acquire() (net.PacketConn, error) {
 		m.pc = pc
 		m.readCh = make(chan readRequest)
 		m.doneCh = make(chan struct{})
-		go func() {
+		// The goroutine owns the socket and channels it was started with, so that
+		// it is unaffected if the shared listener is acquired again after all of
+		// its users have closed it.
+		go func(pc net.PacketConn, readCh chan readRequest, doneCh chan struct{}) {
 			buffer := make([]byte, serverUDPBufferSize)
 			for {
-				n, addr, err := m.pc.ReadFrom(buffer)
+				n, addr, err := pc.ReadFrom(buffer)
 				pkt := buffer[:n]
 				select {
-				case req := <-m.readCh:
+				case req := <-readCh:
 					n := copy(req.buffer, pkt)
 					req.respCh <- struct {
 						n    int
 						addr net.Addr
 						err  error
 					}{n, addr, err}
-				case <-m.doneCh:
+				case <-doneCh:
 					return
 				}
 			}
-		}()
+		}(m.pc, m.readCh, m.doneCh)
 	}
 
 	m.count++
+	pc, doneCh := m.pc, m.doneCh
 	return &virtualPacketConn{
 		PacketConn: m.pc,
 		readCh:     m.readCh,
 		closeCh:    make(chan struct{}),
 		onCloseFunc: func() error {
 			m.mu.Lock()
-			defer m.mu.Unlock()
 			m.count--
-			if m.count == 0 {
-				close(m.doneCh)
-				m.pc.Close()
-				if m.onCloseFunc != nil {
-					onCloseFunc := m.onCloseFunc
-					m.onCloseFunc = nil
-					return onCloseFunc()
-				}
+			if m.count > 0 {
+				m.mu.Unlock()
+				return nil
+			}
+			close(doneCh)
+			pc.Close()
+			m.pc = nil
+			// Release the lock before calling back: the callback may need a lock
+			// that another goroutine holds while it waits to acquire this listener.
+			onCloseFunc := m.onCloseFunc
+			m.mu.Unlock()
+			if onCloseFunc != nil {
+				return onCloseFunc()
 			}
 			return nil
 		},
 	}, nil
+}
+
+// idle reports whether the shared listener currently has no users.
+func (m *multiPacketListener) idle() bool {
+	m.mu.Lock()
+	defer m.mu.Unlock()
+	return m.pc == nil
 }
 
 // ListenerManager holds the state of shared listeners.
@@ -356,15 +377,21 @@ func (m *listenerManager) ListenStream(addr string) (StreamListener, error) {
 
 	streamLn, exists := m.streamListeners[addr]
 	if !exists {
-		streamLn = NewMultiStreamListener(
+		var newLn MultiListener[StreamListener]
+		newLn = NewMultiStreamListener(
 			addr,
 			func() error {
 				m.mu.Lock()
-				delete(m.streamListeners, addr)
-				m.mu.Unlock()
+				defer m.mu.Unlock()
+				// The shared listener may have been acquired again, or replaced,
+				// between its last close and this callback.
+				if m.streamListeners[addr] == newLn && newLn.(*multiStreamListener).idle() {
+					delete(m.streamListeners, addr)
+				}
 				return nil
 			},
 		)
+		streamLn = newLn
 		m.streamListeners[addr] = streamLn
 	}
 	ln, err := streamLn.Acquire()
@@ -380,15 +407,21 @@ func (m *listenerManager) ListenPacket(addr string) (net.PacketConn, error) {
 
 	packetLn, exists := m.packetListeners[addr]
 	if !exists {
-		packetLn = NewMultiPacketListener(
+		var newLn MultiListener[net.PacketConn]
+		newLn = NewMultiPacketListener(
 			addr,
 			func() error {
 				m.mu.Lock()
-				delete(m.packetListeners, addr)
-				m.mu.Unlock()
+				defer m.mu.Unlock()
+				// The shared listener may have been acquired again, or replaced,
+				// between its last close and this callback.
+				if m.packetListeners[addr] == newLn && newLn.(*multiPacketListener).idle() {
+					delete(m.packetListeners, addr)
+				}
 				return nil
 			},
 		)
+		packetLn = newLn
 		m.packetListeners[addr] = packetLn
 	}
 
